@@ -32,13 +32,17 @@ type inst struct {
 	Kd   int  `json:"kd"`
 	Unit bool `json:"unit"`
 	// QR family
-	Q  imat `json:"Q"`
-	RR imat `json:"RR"`
-	C  imat `json:"C"`
-	QC imat `json:"QC"`
-	QTC imat `json:"QTC"`
-	CQ imat `json:"CQ"`
-	CQT imat `json:"CQT"`
+	Q    imat    `json:"Q"`
+	RR   imat    `json:"RR"`
+	C    imat    `json:"C"`
+	QC   imat    `json:"QC"`
+	QTC  imat    `json:"QTC"`
+	CQ   imat    `json:"CQ"`
+	CQT  imat    `json:"CQT"`
+	CR   imat    `json:"CR"`
+	Qidx []int   `json:"qidx"`
+	Tau  []int64 `json:"tau"`
+	T    imat    `json:"T"`
 	// workspace contract
 	Routine string `json:"routine"`
 	Class   string `json:"class"`
